@@ -2,6 +2,8 @@ package main
 
 import (
 	"verif/engine"
+	_ "verif/harness/c01"
+	_ "verif/harness/c05"
 	_ "verif/harness/c07"
 
 	"github.com/sdcio/yang-parser/verifrt"
